@@ -133,7 +133,7 @@ def build(case, with_mapping=True):
     if case.get("offset"):
         # a large constant part (Ms, a far-away coordinate field): the derivatives are those of the polynomial
         arr = arr + case["offset"]
-    f = df.Field(mesh, nvdim=k, value=arr, valid=gen.make_mask(case["mask"], n),
+    f = df.Field(mesh, nvdim=k, value=np.array(arr, copy=True), valid=gen.make_mask(case["mask"], n),
                  dtype=np.complex128 if case.get("complex") else None, **kw)
     return mesh, dims, f, arr, d1, d2
 
